@@ -4,6 +4,7 @@ CONSTANTS
   CHLEN = 41
   MaxLines = @LINES@
   GrayRLLines = @GLINES@
+  MethodHVs = @MHVS@
   TailSet = @TAILS@
   M2Set = @M2S@
 INIT GInit
